@@ -323,3 +323,7 @@ def run(ch: Checker) -> None:
         if narrowing or not reads:
             bad5 = 'args.timeout = %s: the configured timeout is %s' % (norm(st.value)[:70], 'passed through %s, which changes fractional values (2.5 -> 2: a connection that had traffic 2.2 s ago is reaped)' % narrowing if narrowing else 'not taken from the `timeout` option')
     ch.check(bad5 is None and len(tsites) == 1, 'C20.5', fi, 'args.timeout', 'the configured timeout reaches flags.timeout unchanged', bad5 or 'args.timeout is not assigned exactly once in FlagParser.initialize')
+    ch.import_rules('C09', {'C09.2': 'C20.7'}, 'a connection whose plugin holds the response back is idle for the client only if a consumed chunk queues nothing: an empty chunk queued for the client makes it writable and stamps its activity clock although no byte moves')
+    from .common import sweep_period_check
+    ch.rule('C20.8', 'the idle sweep of the shared loop runs every Threadless.cleanup_inactive_timeout seconds, a positive constant below DEFAULT_TIMEOUT: the bound on how much longer than --timeout an idle connection lives in the shared-loop modes (the per-connection thread tests every select round)', 1)
+    sweep_period_check(ch, 'C20.8')
